@@ -58,14 +58,19 @@ theorem stop_at_head_exits (O : Oracles α) (dir : Dir D α) (P : Prob α) (pr :
   simp only []
   rw [if_pos (by simpa using hnb)]
 
-/-- …and the status reported then is `Interrupted` unless a higher-priority condition holds at the same
-    moment (tolerance met, time / iteration limit, non-finite ε, no progress). -/
+/-- …and the status reported then is `Interrupted`, or it is the natural status whose own condition held
+    at that head: `Converged ∧ ε ≤ tol'`, `MaxTime ∧ out of time`, `MaxIter ∧ k = max_iter`,
+    `NotFinite ∧ ε not finite`, `NoProgress ∧ counter > max_no_progress`. -/
 theorem stop_status_interrupted_or_natural (pr : Params α) (k : Nat) (eps : α) (np : Nat) (oot : Bool) :
-    statusOf pr k eps np oot true ∈
-      [SolverStatus.Converged, .MaxTime, .MaxIter, .NotFinite, .NoProgress, .Interrupted] := by
-  unfold statusOf statusChainOcp
-  simp only []
-  split_ifs <;> simp
+    statusOf pr k eps np oot true = .Interrupted ∨
+    (statusOf pr k eps np oot true = .Converged ∧ eps ≤ Props.C06.effTol pr.tolerance) ∨
+    (statusOf pr k eps np oot true = .MaxTime ∧ oot = true) ∨
+    (statusOf pr k eps np oot true = .MaxIter ∧ k = pr.maxIter) ∨
+    (statusOf pr k eps np oot true = .NotFinite ∧ RealLike.isFinite eps = false) ∨
+    (statusOf pr k eps np oot true = .NoProgress ∧ np > pr.maxNoProgress) := by
+  unfold statusOf
+  rw [Props.C06.chains_agree]
+  exact Props.C06.stop_gives_interrupted_or_natural _ _ _ _ _ _ _
 
 /-- **The line-search loop does nothing once the flag is visible.** -/
 theorem linesearch_does_nothing_when_stopped (O : Oracles α) (dir : Dir D α) (P : Prob α)
